@@ -28,7 +28,6 @@ RULE = ("random loop-free networks on rasters <= 56 cells (quick) / <= 340 (thor
         "zero weights. non-trivial = >= 2 valid cells, >= 1 confluence, path length >= 3 and >= 1 non-missing outlet; "
         "distinct = SHA-1 of (op, network, outlets, options, fields)")
 
-JIT = os.environ.get("PF_JIT", "0") == "1"
 RES = [(3, -4), (4, -3), (3000, -4000), (4000, -3000)]
 
 
@@ -495,10 +494,19 @@ def case_rivavg(ctx, W, outs, nt, median):
     else:
         if rng.random() < 0.5:
             w_np = None
-        else:  # 1-D weights (the wrapper hands them to the kernel unchanged), zeros allowed
+        else:  # raster-shaped (as documented) or flat weights, zeros allowed
             w_np = np.array([rng.choice([0, 0, 1, 2, 3, 0.5]) for _ in range(n)], dtype=rng.choice([np.float32, np.float64]))
-        out = flw.subgrid_rivavg(o_np, data_np, weights=w_np, mask=mask, direction=d, **kw)
-        ctx.count("weights:" + ("none" if w_np is None else "given"))
+            if rng.random() < 0.6:
+                w_np = w_np.reshape(W["shape"])
+        try:
+            out = flw.subgrid_rivavg(o_np, data_np, weights=w_np, mask=mask, direction=d, **kw)
+        except Exception as e:  # documented argument shapes must be accepted
+            ctx.evaluations += 1
+            ctx.fail({"op": "subgrid_rivavg", **W["env"], "outlets": outs, "direction": d,
+                      "weights_shape": None if w_np is None else list(w_np.shape)}, "spec",
+                     f"subgrid_rivavg raised {type(e).__name__}: {e}")
+            return
+        ctx.count("weights:" + ("none" if w_np is None else "2d" if w_np.ndim == 2 else "1d"))
     Dd, (data, (nd,)) = scaled(data_np, [nodata])
     impl = [float(x) for x in np.asarray(out).ravel().tolist()]
     ddt = data_np.dtype
@@ -556,7 +564,7 @@ def case_rivslp_both(ctx, W, outs, nt):
     edt = rng.choice([np.float32, np.float64])
     elev_np = np.array([rng.randint(0, 60) / rng.choice([1, 1, 2]) for _ in range(n)], dtype=edt).reshape(W["shape"])
     o_np, outs = outs_arg(ctx, W, outs)
-    mask = gen_mask(ctx, W)   # handed over, but the kernel's `is False` tests never fire
+    mask = gen_mask(ctx, W)
     wrapper = W["fam"] == "dem" and abs(res[0]) < 1000
     if wrapper:
         length = rng.choice([2, 5, 8, 10, 15, 24, 1000])
@@ -608,13 +616,14 @@ def case_rivslp_both(ctx, W, outs, nt):
 
     ctx.add(desc, [("c10.fixed_length_slope", {"ds": ds, "usmain": canon_idx(flw.idxs_us_main, n), "outs": outs,
                                                "elevtn": elev, "distnc": dist, "half": half,
-                                               "lstsq": int(method == "lstsq")})], judge, nontrivial=nt)
+                                               "lstsq": int(method == "lstsq"),
+                                               "mask": None if mask is None else mask})], judge, nontrivial=nt)
 
 
 def case_rivslp(ctx, W, outs, nt):
     from pyflwdir import subgrid
     rng, flw, n, res = ctx.rng, W["flw"], W["n"], W["res"]
-    if not JIT and rng.random() < 0.3 and all(o == n or W["ds"][o] != n for o in outs):
+    if rng.random() < 0.3 and all(o == n or W["ds"][o] != n for o in outs):
         return case_rivslp_both(ctx, W, outs, nt)
     d, nxt = direction_nxt(ctx, W)
     mask = gen_mask(ctx, W)
@@ -669,8 +678,6 @@ def case_rivslp(ctx, W, outs, nt):
                        "model": [repr(x) for x in m]})
         return fs
 
-    # `mask[idx1] is False` in segment_slope is never true in the interpreter (the mask is ignored there);
-    # numba compiles it as an equality test
     ctx.add(desc, [("c10.seg_slope", {"nxt": nxt, "outs": outs, "elevtn": elev, "distnc": dist,
-                                      "lstsq": int(method == "lstsq"), "mask_used": int(JIT),
+                                      "lstsq": int(method == "lstsq"),
                                       "mask": None if mask is None else mask})], judge, nontrivial=nt)
